@@ -93,6 +93,10 @@ def gen_cases(rng, tier, scale):
         [('pi', 1), ('regs', 'b', 'B2 {{v}}'), ('regs', 'a', '  {{> b}}\n'), ('pi', 0), ('regs', 'c', '  {{> b}}\n'), ('clone',), ('sel', 1), ('pi', 1)],
         [('dev', 1), ('fw', 'f1', 'A1'), ('regf', 'a', 'f1'), ('regs', 'a', 'B2 {{v}}'), ('fw', 'f1', 'C3{{#if v}}y{{/if}}'), ('dev', 0), ('dev', 1)],
         [('dev', 1), ('fw', 'f3', '{{#if}'), ('regf', 'a', 'f3'), ('fw', 'f3', 'A1'), ('regf', 'a', 'f3'), ('fw', 'f3', '{{#if}'), ('dev', 0)],
+        # a file-registered template reached as a partial of a string template / of another file template follows its file
+        [('dev', 1), ('fw', 'f1', 'B2 {{v}}'), ('regf', 'b', 'f1'), ('regs', 'a', 'A1\n  {{> b}}\nZ'), ('fw', 'f1', 'C3{{#if v}}y{{/if}}')],
+        [('dev', 1), ('fw', 'f1', 'B2 {{v}}'), ('regf', 'b', 'f1'), ('fw', 'f2', '  {{> b}}\n'), ('regf', 'c', 'f2'), ('fw', 'f1', 'A1'), ('dev', 0), ('dev', 1)],
+        [('fw', 'f1', 'B2 {{v}}'), ('dev', 1), ('regf', 'b', 'f1'), ('regs', 'c', '  {{> b}}\n'), ('fw', 'f1', 'B2 {{v}}\nL2\n'), ('clone',), ('sel', 1), ('fw', 'f1', 'A1')],
         # a file template with an indented include of a multi-line partial: the prevent_indent setting in force at
         # registration (and at every dev-mode reload) decides its rendering
         [('pi', 1), ('dev', 1), ('regs', 'b', 'B2 {{v}}\nL2\n'), ('fw', 'f1', 'A1\n  {{> b}}\nZ'), ('regf', 'a', 'f1'), ('fw', 'f1', 'A1\n  {{> b}}\nZ2')],
